@@ -39,6 +39,8 @@ def exc_class(I, name):
         c = ExcClass('struct.error', [exc_class(I, 'Exception')])
     elif name in ('queue.Empty', 'queue.Full'):
         c = ExcClass(name, [exc_class(I, 'Exception')])
+    elif name in ('Deadlock', 'StopLoop'):
+        c = ExcClass(name, [exc_class(I, 'BaseException')])
     elif name == 'socket.timeout':
         c = ExcClass(name, [exc_class(I, 'OSError')])
     else:
